@@ -391,7 +391,10 @@ def molecule_plan(chk: Check):
     add("rhf", "H4ring", chol_cut=1e-7, trial="uhf", walker_type="uhf")
     add("rohf", "H4", spin=2, mf="rohf", trial="uhf", walker_type="rhf", chol_cut=1e-5)
     add("uhf", "OH", spin=1, mf="uhf", trial="uhf", walker_type="uhf", chol_cut=1e-6)
-    add("df", "LiH", df=True, nfrozen=1, chol_cut=1e-5)
+    # density fitting AND a frozen core: the core potential must come from the same (density-fitted) integrals as the
+    # Cholesky vectors - tight threshold, so that a 1e-5 inconsistency between the two is visible
+    add("df", "LiH", df=True, nfrozen=1, chol_cut=1e-8)
+    add("df", "OH", spin=1, mf="rohf", df=True, nfrozen=1, trial="uhf", walker_type="uhf", chol_cut=1e-8)
     add("custom-basis", "OH", spin=1, mf="rohf", trial="uhf", walker_type="uhf", basis_coeff="lowdin", chol_cut=1e-5)
     if chk.tier == "quick":
         return S
